@@ -50,7 +50,7 @@ def parseK2 (s : String) : Key2 :=
   | [a, b] => { ns := a, name := b }
   | _ => { ns := "", name := s }
 
-inductive OpKind | init | recExp (k : Key2) | recSug (k : Key2) (viewsLive : Bool) | recTrial (k : Key2) | editMax (k : Key2)
+inductive OpKind | init | recExp (k : Key2) | recSug (k : Key2) (viewsLive : Bool) | recTrial (k : Key2) (viewLive : Bool) | editMax (k : Key2)
   | quiesceBegin (k : Key2) | quiesceEnd (k : Key2) | env
   deriving Repr
 
@@ -189,7 +189,7 @@ def oracleC07 (o : OSt) (op : OpKind) (log : List String) (cur : World) : String
   let deletedUnfinished := deleted.find? (fun k => match findTrial o.prev k with | some t => !tCompleted t | none => false)
   -- a Trial under deletion loses its finalizer (or disappears) only in a reconcile whose database clean-up succeeded
   let released : Option Key2 := match op with
-    | .recTrial k =>
+    | .recTrial k _ =>
       (match findTrial o.prev k with
        | some p =>
          if p.deleted && p.fin && (match findTrial cur k with | some t => !t.fin | none => true) &&
@@ -197,7 +197,7 @@ def oracleC07 (o : OSt) (op : OpKind) (log : List String) (cur : World) : String
        | none => none)
     | _ => none
   let rowsLeft : Option Key2 := match op with
-    | .recTrial k =>
+    | .recTrial k _ =>
       (match findTrial o.prev k, findTrial cur k with
        | some p, none => if p.deleted && cur.db.any (fun r => r.1 = k.name) then some k else none
        | _, _ => none)
@@ -206,9 +206,18 @@ def oracleC07 (o : OSt) (op : OpKind) (log : List String) (cur : World) : String
   | some k, _ => s!"fail finalizer-released-without-database-cleanup {k.name}"
   | _, some k => s!"fail observation-log-remains-after-trial-deletion {k.name}"
   | _, _ =>
+  -- known finding: the run object of a completed Trial was removed by someone else and a reconcile that still reads a
+  -- Trial copy from before the completion creates it again
+  let staleRecreate (k : Key2) : Bool := match op with
+    | .recTrial k' false => decide (k' = k) && o.jobGoneExt.contains k
+    | _ => false
   match twice, createdCompleted, deletedUnfinished with
-  | some k, _, _ => s!"fail run-object-created-twice {k.name}"
-  | _, some k, _ => s!"fail run-object-created-for-completed-or-absent-trial {k.name}"
+  | some k, _, _ =>
+    if staleRecreate k then "known C07-recreated-after-external-removal-under-trial-cache-lag"
+    else s!"fail run-object-created-twice {k.name}"
+  | _, some k, _ =>
+    if staleRecreate k then "known C07-recreated-after-external-removal-under-trial-cache-lag"
+    else s!"fail run-object-created-for-completed-or-absent-trial {k.name}"
   | _, _, some k => s!"fail run-object-of-unfinished-trial-deleted {k.name}"
   | _, _, _ =>
     match op with
